@@ -209,12 +209,17 @@ def StageReference(dataReference,  # type: experiment.model.graph.DataReference
             if os.path.isdir(reference):
                 destName = os.path.split(reference)[1]
                 dest = os.path.join(dest, destName)
-                shutil.copytree(reference, dest, symlinks=True)
+                # VV: The destination exists when the component is staged-in again (the instance is restarted): as for
+                #     a file, the new copy replaces what is there
+                shutil.copytree(reference, dest, symlinks=True, dirs_exist_ok=True)
             else:
                 shutil.copy(reference, dest)
         elif dataReference.method == experiment.model.graph.DataReference.Link:
             name = os.path.split(reference)[1]
             dest = os.path.join(location.path, name)
+            # VV: ... and so does the new link (only a link is replaced, never real data)
+            if os.path.islink(dest):
+                os.unlink(dest)
             os.symlink(reference, dest)
         elif dataReference.method == experiment.model.graph.DataReference.Extract:
             archive = reference
